@@ -10,6 +10,7 @@ import (
 	"github.com/cloudwego/gopkg/bufiox"
 
 	"verif/mc"
+	"verif/vdump"
 )
 
 // readerSys drives a real bufiox.DefaultReader / BytesReader in lock-step with a plain
@@ -131,24 +132,14 @@ func (s *readerSys) termErr() error {
 }
 
 func (s *readerSys) Key() string {
-	st := s.dr.VerifState()
 	var b strings.Builder
-	fmt.Fprintf(&b, "%d/%d/%d/%v/%v|", st.Len, st.Cap, st.Ri, st.ReadOnly, st.Pending)
-	if st.Err != nil {
-		b.WriteString("E|")
-	}
-	fmt.Fprintf(&b, "%v/%d|p%d|b%d|", st.Stats, st.StatIdx, s.pos, s.base)
+	// every private field of the reader, read by reflection (no field is named): lengths, capacities and CONTENTS of
+	// its buffers (so a state whose buffered bytes differ is a different state and is expanded, never merged away),
+	// cursor, flags, parked buffers, sticky error, size statistics
+	b.WriteString(vdump.Key(s.dr, vdump.Opt{Content: true}))
+	fmt.Fprintf(&b, "|p%d|b%d|", s.pos, s.base)
 	if s.env != nil {
 		fmt.Fprintf(&b, "s%d/%d/%v|", s.env.pos, s.env.zr, s.env.ErrReturned)
-	}
-	// content flag: buffered bytes that do not match the stream make a different state (so it is expanded, never merged away)
-	if st.Ri <= st.Len && st.Len <= st.Cap {
-		n := st.Len - st.Ri
-		if s.pos+n > len(s.D) || !bytes.Equal(st.Buf[st.Ri:st.Len], s.D[s.pos:s.pos+n]) {
-			b.WriteString("X|")
-		}
-	} else {
-		b.WriteString("I|")
 	}
 	if s.cfg.Retain {
 		for _, k := range s.kept {
